@@ -375,13 +375,13 @@ func (v *fnVC) applyCall(c *ssa.CallCommon, x *ssa.Call, pos token.Pos, cond T) 
 			v.oblige("pre@"+key, r.Text, t, pos)
 		}
 	}
-	v.rvEffect(con, env, pkg, key)
 	if v.con != nil {
 		for _, r := range v.con.AtCall[key] {
 			t, _ := v.tr(r.E, env)
 			v.oblige("at-call@"+key, r.Text, t, pos)
 		}
 	}
+	v.rvEffect(con, env, pkg, key)
 	// frame
 	if len(con.Modifies) > 0 {
 		v.calleeFrameCheck(con, env, key, pos)
